@@ -1,6 +1,7 @@
 import LunarVerif.Proofs.C01Exact
 import LunarVerif.Proofs.C01Atomic
 import LunarVerif.Proofs.C01Verdict
+import LunarVerif.Proofs.C01Unit
 /-!
 # C01 — Fixed-window quotas never admit more than their limit per window
 
@@ -22,10 +23,10 @@ theorem counter_le_max (cfg : Cfg) (t0 : Nat) (sched : List Act) (k : Key) (c : 
     ((Sys.run cfg (Sys.init t0) sched).st.at k).counter ≤ c.max :=
   ((SysInv.run cfg sched _ (SysInv.init cfg t0)).lvl k c hk).counter_le
 
-/-- (i) Bound: for every quota (leaf or ancestor), every group value and every window
-    reconstructed from the log of charged arrivals, the admissions (`Allowed = true`) made while
-    that window was current number at most `max` — for every schedule.  Every window also holds
-    at most `max` charged arrivals and admissions never exceed charges. -/
+/-- (i) Bound: for every quota (leaf or ancestor, `fixed_window`, custom counter or percentage child
+    with its effective limit), every group value and every window reconstructed from the log of charged
+    arrivals, what the admissions (`Allowed = true`) made while that window was current had counted sums
+    to at most `max` — for every schedule. -/
 theorem admitted_le_max (cfg : Cfg) (t0 : Nat) (sched : List Act) (k : Key) (c : QuotaCfg)
     (hk : cfg.quotas[k.1]? = some c) :
     ∀ w ∈ tally c.win k (Sys.run cfg (Sys.init t0) sched).log,
@@ -33,6 +34,29 @@ theorem admitted_le_max (cfg : Cfg) (t0 : Nat) (sched : List Act) (k : Key) (c :
   intro w hw
   have := ((SysInv.run cfg sched _ (SysInv.init cfg t0)).lvl k c hk).all w hw
   omega
+
+/-- Custom counters: the sum of the (non-negative) header values charged to a window, net of the
+    charges given back, never exceeds `max`, whatever the values and the interleaving. -/
+theorem charged_cost_le_max (cfg : Cfg) (t0 : Nat) (sched : List Act) (k : Key) (c : QuotaCfg)
+    (hk : cfg.quotas[k.1]? = some c) :
+    ∀ w ∈ tally c.win k (Sys.run cfg (Sys.init t0) sched).log, w.charged ≤ c.max :=
+  fun w hw => (admitted_le_max cfg t0 sched k c hk w hw).2.1
+
+/-- At a plain `fixed_window` quota every event that changes a window counts exactly 1 (charge,
+    admission, refund): there `admitted` / `charged` are *numbers of requests*, so `admitted_le_max` is
+    the bound of the property as stated. -/
+theorem fixed_window_counts_requests (cfg : Cfg) (t0 : Nat) (sched : List Act) (k : Key) (c : QuotaCfg)
+    (hk : cfg.quotas[k.1]? = some c) (hcc : c.cc = none) :
+    ∀ e ∈ (Sys.run cfg (Sys.init t0) sched).log,
+      (∀ r t cost, e = LEv.inc k r t cost .increased → cost = 1) ∧
+      (∀ r amt, e = LEv.allowed k r true amt → amt = 1) ∧
+      (∀ r amt, e = LEv.refund k r true amt → amt = 1) := by
+  intro e he
+  have hu := (UInv.run cfg sched _ (UInv.init cfg t0)).log k c hk hcc e he
+  refine ⟨?_, ?_, ?_⟩
+  · intro r t cost h; subst h; exact hu rfl
+  · intro r amt h; subst h; exact hu rfl
+  · intro r amt h; subst h; exact hu rfl
 
 /-- A call is let through (verdict `true`) only after *every* quota of its chain — the quota itself
     and each ancestor, in the group the request's headers select — admitted it; so the requests let
@@ -42,14 +66,15 @@ theorem let_through_admitted_by_every_level (cfg : Cfg) (t0 : Nat) (sched : List
     (hth : (Sys.run cfg (Sys.init t0) sched).threads[tid]? = some th)
     (hv : LEv.verdict tid r q true ∈ (Sys.run cfg (Sys.init t0) sched).log) :
     r = th.r ∧ q = th.q ∧
-    ∀ p ∈ chain cfg th.q, LEv.allowed (p.1, groupOf p.2 th.h) th.r true ∈ (Sys.run cfg (Sys.init t0) sched).log :=
+    ∀ p ∈ chain cfg th.q, ∃ amt,
+      LEv.allowed (p.1, groupOf p.2 th.h) th.r true amt ∈ (Sys.run cfg (Sys.init t0) sched).log :=
   (VInv.run cfg sched _ (VInv.init cfg t0)).ver tid th r q hth hv
 
 /-! ### Non-vacuity -/
 
 /-- Two quotas: parent 0 (max 1 per 2 s), child 1 (max 2 per 2 s).  Three limiter calls in flight,
     their steps interleaved; the clock crosses the window boundary in the middle. -/
-def exCfg : Cfg := ⟨[⟨none, 1, 2 * nsPerSec, none⟩, ⟨some 0, 2, 2 * nsPerSec, none⟩]⟩
+def exCfg : Cfg := ⟨[⟨none, 1, 2 * nsPerSec, none, none⟩, ⟨some 0, 2, 2 * nsPerSec, none, none⟩]⟩
 
 def exSched : List Act :=
   [.spawn .req 1 1 [], .spawn .req 1 2 [], .spawn .req 1 3 [],
@@ -64,7 +89,7 @@ example : tally (2 * nsPerSec) (0, 0) (Sys.run exCfg (Sys.init (10 * nsPerSec + 
     to the child given back) is about to start its `Allowed` walk. -/
 example : (Sys.run exCfg (Sys.init (10 * nsPerSec + 5)) exSched).threads.map (·.pc) =
     [.done (some true),
-     .allowed [(1, ⟨some 0, 2, 2 * nsPerSec, none⟩), (0, ⟨none, 1, 2 * nsPerSec, none⟩)],
+     .allowed [(1, ⟨some 0, 2, 2 * nsPerSec, none, none⟩), (0, ⟨none, 1, 2 * nsPerSec, none, none⟩)],
      .done (some false), .done (some true)] := by
   decide
 
@@ -74,19 +99,88 @@ example : (Sys.run exCfg (Sys.init (10 * nsPerSec + 5)) exSched).threads.map (·
 example : tally (2 * nsPerSec) (1, 0) (Sys.run exCfg (Sys.init (10 * nsPerSec + 5)) exSched).log
     = [⟨12, 1, 1⟩, ⟨10, 1, 1⟩] := by decide
 
-example : LEv.refund (1, 0) 2 true ∈ (Sys.run exCfg (Sys.init (10 * nsPerSec + 5)) exSched).log := by decide
+example : LEv.refund (1, 0) 2 true 1 ∈ (Sys.run exCfg (Sys.init (10 * nsPerSec + 5)) exSched).log := by decide
 
 /-- (ii) Spacing: in every schedule the reconstructed windows of a level start at least one window
     length apart (window lengths are whole seconds, as the configuration format makes them). -/
 theorem windows_spaced (cfg : Cfg) (t0 : Nat) (sched : List Act) (k : Key) (win : Nat)
     (hw : win % nsPerSec = 0) :
     spacedBy (win / nsPerSec) (tally win k (Sys.run cfg (Sys.init t0) sched).log) = true := by
-  have hs := run_sorted cfg sched (Sys.init t0) trivial (fun _ _ _ _ h => by simp [Sys.init] at h)
+  have hs := run_sorted cfg sched (Sys.init t0) trivial (fun _ _ _ _ _ h => by simp [Sys.init] at h)
   exact (tally_spaced win k hw _ _ hs.1 hs.2).1
 
 /-- The newest window of `exSched`'s parent level starts exactly one window length (2 s) after the first. -/
 example : windowsOf (2 * nsPerSec) (0, 0) (Sys.run exCfg (Sys.init (10 * nsPerSec + 5)) exSched).log = [10, 12] := by
   decide
+
+/-! ## Percentage allocation (`allocation_percentage` children of `internal_limits`) -/
+
+/-- The loader gives a percentage child a copy of its parent's strategy with the limit
+    `parent.max * pct / 100` (integer division): the bounds above hold for it with that effective limit. -/
+theorem alloc_child_bound (cfg : Cfg) (t0 : Nat) (sched : List Act) (k : Key) (pid : QId) (parent : QuotaCfg)
+    (pct : Nat) (hk : cfg.quotas[k.1]? = some (allocate pid parent pct)) :
+    ∀ w ∈ tally parent.win k (Sys.run cfg (Sys.init t0) sched).log,
+      w.admitted ≤ parent.max * pct / 100 ∧ w.charged ≤ parent.max * pct / 100 := by
+  intro w hw
+  have := admitted_le_max cfg t0 sched k _ hk w hw
+  simp only [allocate, effMax] at this
+  exact ⟨this.1, this.2.1⟩
+
+/-- A percentage ≤ 100 (the validator's `lte=100`) never gives a child more than its parent. -/
+theorem effMax_le_parent (m pct : Nat) (h : pct ≤ 100) : effMax m pct ≤ m := by
+  unfold effMax
+  apply Nat.div_le_of_le_mul
+  calc m * pct ≤ m * 100 := Nat.mul_le_mul_left m h
+    _ = 100 * m := Nat.mul_comm m 100
+
+/-- When the percentages of the children add up to at most 100, their effective limits add up to at
+    most the parent's limit (rounding is downwards). -/
+theorem alloc_sum_le (m : Nat) (ps : List Nat) (h : ps.sum ≤ 100) : (ps.map (effMax m)).sum ≤ m := by
+  have key : ∀ (ps : List Nat), (ps.map (effMax m)).sum ≤ m * ps.sum / 100 := by
+    intro ps
+    induction ps with
+    | nil => simp
+    | cons p ps ih =>
+      simp only [List.map_cons, List.sum_cons, effMax, Nat.mul_add] at ih ⊢
+      omega
+  calc (ps.map (effMax m)).sum ≤ m * ps.sum / 100 := key ps
+    _ ≤ m := effMax_le_parent m ps.sum h
+
+/-- The code does **not** check the sum of the children's percentages (each is only validated to be
+    ≤ 100): two children of 60 % of a parent of 10 get 6 + 6 = 12.  The children are still bounded
+    together by the parent's own window, since a child passes every arrival it charges on to the parent. -/
+theorem alloc_sum_not_enforced : ∃ (m : Nat) (ps : List Nat), (∀ p ∈ ps, p ≤ 100) ∧ m < (ps.map (effMax m)).sum :=
+  ⟨10, [60, 60], by decide, by decide⟩
+
+/-- Rounding: 10 % of 5 is 0 — such a child refuses everything. -/
+example : effMax 5 10 = 0 ∧ effMax 5 50 = 2 ∧ effMax (effMax 5 50) 50 = 1 := by decide
+
+/-! ## Groups -/
+
+/-- A request without the group-by header and a request carrying the literal value `default`
+    (reading 0) are counted in the same group, i.e. share one window and one limit. -/
+theorem default_group_shared (c : QuotaCfg) (i : Nat) (hc : c.gh = some i) (h : Hdrs)
+    (habsent : h.lookup i = none) : groupOf c h = groupOf c ((i, 0) :: h) := by
+  simp [groupOf, hc, habsent]
+
+/-- Distinct header values are distinct groups with separate windows. -/
+theorem groups_separate (c : QuotaCfg) (i : Nat) (hc : c.gh = some i) (h : Hdrs) (g g' : Nat) (hne : g ≠ g') :
+    groupOf c ((i, g) :: h) ≠ groupOf c ((i, g') :: h) := by
+  simpa [groupOf, hc] using hne
+
+/-! ## Custom counters: the parse glue -/
+
+/-- Missing, malformed, negative and out-of-range header texts all count 0; `+7` counts 7. -/
+example : parseCost "" = 0 ∧ parseCost "abc" = 0 ∧ parseCost " 1" = 0 ∧ parseCost "-5" = 0 ∧ parseCost "+7" = 7 ∧
+    parseCost "007" = 7 ∧ parseCost "9223372036854775807" = 9223372036854775807 ∧
+    parseCost "9223372036854775808" = 0 := by decide
+
+/-- A custom-counter quota (max 3) charged by header values: 2 passes, a value that does not fit is
+    refused without changing anything, a request counting 0 always passes, and 1 more fits. -/
+example : (observe ⟨[⟨none, 3, 60 * nsPerSec, none, some 0⟩]⟩ St.init
+    [⟨.req, 0, 1, 5, [(costKey 0, 2)]⟩, ⟨.req, 0, 2, 5, [(costKey 0, 2)]⟩, ⟨.req, 0, 3, 5, []⟩,
+     ⟨.req, 0, 4, 5, [(costKey 0, 1)]⟩, ⟨.req, 0, 5, 5, [(costKey 0, 1)]⟩]).map (·.ans) =
+    [some true, some false, some true, some true, some false] := by decide
 
 /-! ## API calls are schedules -/
 
@@ -128,18 +222,20 @@ theorem api_bound (cfg : Cfg) (hwf : wellFormed cfg = true) (ops : List Op)
     (hreg : regular (observe cfg St.init ops) = true) :
     boundHolds cfg (observe cfg St.init ops) = true := by
   unfold regular at hreg
-  rw [arrivals_observe] at hreg
-  have := api_rel cfg (wellFormed_parents hwf) ops St.init SSt.init (LevelsRel.init cfg) (init_fresh ops) hreg
+  rw [arrivals_observe, Bool.and_eq_true] at hreg
+  have := api_rel cfg (wellFormed_parents hwf) ops St.init SSt.init [] (LevelsRel.init cfg) (AmtInv.init cfg)
+    (init_fresh ops) hreg.1 hreg.2
   exact boundHolds_of_rel cfg _ _ this
 
 /-- (ii) at the API layer, for *any* history with non-decreasing instants (the implementation's too). -/
 theorem api_windows_spaced (cfg : Cfg) (hwf : wellFormed cfg = true) (h : History) (hm : monotone h = true) :
     spacedHolds cfg h = true :=
-  spacedHolds_of cfg (fun i c hi => (wellFormed_at hwf i c hi).2.2.1) h hm
+  spacedHolds_of cfg (fun i c hi => (wellFormed_at hwf i c hi).2.1) h hm
 
-/-- (iii) Exactness, for every well-formed configuration (any hierarchy, any grouping): handled one
-    at a time, a request is refused only if its quota or one of its ancestors has already **let through**
-    `max` requests in its current window.  (Holds since the repair of F01a: a quota gives its charge
+/-- (iii) Exactness, for every well-formed configuration (any hierarchy, any grouping, custom counters,
+    percentage children): handled one at a time, a request is refused only if its quota or one of its
+    ancestors has no room left for what the request counts there, given what it has already **let
+    through** in its current window (for `fixed_window`: it has let `max` requests through).  (Holds since the repair of F01a: a quota gives its charge
     back when a quota further up refuses the request.) -/
 theorem seq_exact_hier (cfg : Cfg) (hwf : wellFormed cfg = true) (ops : List Op)
     (hreg : regular (observe cfg St.init ops) = true) :
@@ -150,8 +246,9 @@ theorem seq_exact_hier (cfg : Cfg) (hwf : wellFormed cfg = true) (ops : List Op)
   | true =>
     simp only [Bool.not_true, Bool.false_or]
     unfold regular at hreg
-    rw [arrivals_observe] at hreg
-    apply seq_exact_run cfg (wellFormed_parents hwf) ops St.init SSt.init (LevelsRel.init cfg) (init_fresh ops) hreg
+    rw [arrivals_observe, Bool.and_eq_true] at hreg
+    apply seq_exact_run cfg (wellFormed_parents hwf) ops St.init SSt.init [] (LevelsRel.init cfg) (AmtInv.init cfg)
+      (init_fresh ops) hreg.1
     · intro o ho
       have hall : ∀ (ops : List Op) (st : St), sequential (observe cfg st ops) = true → ∀ o ∈ ops, o.kind = .req := by
         intro ops
@@ -182,7 +279,7 @@ theorem c01_holds (cfg : Cfg) (hwf : wellFormed cfg = true) (ops : List Op) :
 /-! ### Regression: the former F01a witness -/
 
 /-- Child quota 1: 5 per hour; parent quota 0: 2 per minute. -/
-def f01aCfg : Cfg := ⟨[⟨none, 2, 60 * nsPerSec, none⟩, ⟨some 0, 5, 3600 * nsPerSec, none⟩]⟩
+def f01aCfg : Cfg := ⟨[⟨none, 2, 60 * nsPerSec, none, none⟩, ⟨some 0, 5, 3600 * nsPerSec, none, none⟩]⟩
 
 /-- Five requests in the first minute (two pass, three are refused by the parent), one request at the
     start of the second minute. -/
@@ -204,7 +301,7 @@ example : wellFormed f01aCfg = true ∧ regular (observe f01aCfg St.init f01aOps
 
 /-- A flat quota (max 2 per 2 s) refuses the third request of a window and lets the next one through
     exactly at `start + window`. -/
-example : (observe ⟨[⟨none, 2, 2 * nsPerSec, none⟩]⟩ St.init
+example : (observe ⟨[⟨none, 2, 2 * nsPerSec, none, none⟩]⟩ St.init
     [⟨.req, 0, 1, 10 * nsPerSec + 7, []⟩, ⟨.req, 0, 2, 11 * nsPerSec, []⟩, ⟨.req, 0, 3, 12 * nsPerSec - 1, []⟩,
      ⟨.req, 0, 4, 12 * nsPerSec, []⟩]).map (·.ans) = [some true, some true, some false, some true] := by decide
 
